@@ -159,8 +159,10 @@ Theorem C07_chunk_files : forall compress decompress wc,
 Proof. exact file_sorter_refines. Qed.
 Print Assumptions C07_chunk_files.
 
-(* the chunk files handed out at the end (into_reader_cursors) open with the right entry count and a
-   fresh cursor on each yields exactly the corresponding chunk of the list-level sorter *)
+(* the chunk files handed out at the end (into_reader_cursors) open with the right entry count and present
+   exactly the corresponding chunk of the list-level sorter: as a well-formed store with that content (so
+   every cursor and iterator theorem applies to them), or as the file of a writer that finished without an
+   insert when the chunk is empty *)
 Theorem C07_chunk_files_hold_the_chunks : forall compress decompress wc,
   (forall b z, compress (wc_codec wc) (wc_level wc) b = Done z -> decompress (wc_codec wc) z = Done b) ->
   (forall b, exists z, compress (wc_codec wc) (wc_level wc) b = Done z) ->
@@ -170,9 +172,16 @@ Theorem C07_chunk_files_hold_the_chunks : forall compress decompress wc,
   f_inserts compress decompress wc c mf (f_new c) ins = Done fs1 -> f_finish compress decompress wc mf fs1 = Done x ->
   exists st1 y, s_inserts c mf (s_new c) ins = Done st1 /\ s_finish mf st1 = Done y /\
     fst x = fst y /\
-    Forall2 (fun f es => exists s, open_chunk decompress f = Done (s, len es) /\ yields rsrc rsnext s es) (snd x) (snd y).
+    Forall2 (fun f es => exists m, open_meta f = Done m /\ m_count m = len es /\
+                                   store_of (load_block decompress f (m_codec m)) (m_root m) (m_levels m) es) (snd x) (snd y).
 Proof. exact file_sorter_chunks. Qed.
 Print Assumptions C07_chunk_files_hold_the_chunks.
+
+(* what "presents the entries" gives: a fresh cursor stepped with move_on_next yields exactly them *)
+Theorem C07_chunk_file_yields : forall ld root levels es, store_of ld root levels es ->
+  yields cstate (rnext ld root levels) cs_fresh es.
+Proof. exact store_yields. Qed.
+Print Assumptions C07_chunk_file_yields.
 
 (* non-vacuity: codec None, a 3-level chunk writer, a budget that spills on every other insert and merges
    chunks: the file-level run finishes inside the envelope, with the list-level result *)
